@@ -254,6 +254,78 @@ type session struct {
 	reqTimes []reqTime // when ops that can (re)stamp a tx request were sent / answered
 	doubt    bool
 	handled  time.Time // when the node was first seen to have handled everything of the current op
+	blk      *blockRec // what the handler of the latest RequestBlock saw
+	onStops  int64     // onStop invocations (atomic)
+	cancelCh chan bool // a CancelBlockRequest that did not return within its time bound
+	endTold  bool      // the end-of-run tail was printed
+}
+
+// blockRec is filled by the block handler given to RequestBlock (it plays BlockDownloader.HandleBlock:
+// counts the transactions until the channel is closed, nil iff it got as many as announced).
+type blockRec struct {
+	sync.Mutex
+	called bool
+	count  uint64
+	got    uint64
+	done   string // "run", "ok", "err"
+}
+
+func (b *blockRec) show() string {
+	if b == nil {
+		return "idle"
+	}
+	b.Lock()
+	defer b.Unlock()
+	if !b.called {
+		return "idle"
+	}
+	return fmt.Sprintf("c%dg%dd%s", b.count, b.got, b.done)
+}
+
+// cancelPending tells whether an earlier CancelBlockRequest is still blocked (it holds the node's
+// mutex then, so nothing that locks the node may be called).
+func (s *session) cancelPending() bool {
+	if s.cancelCh == nil {
+		return false
+	}
+	select {
+	case <-s.cancelCh:
+		s.cancelCh = nil
+		return false
+	default:
+		return true
+	}
+}
+
+// endTail is appended once Run has returned: onStop invocations, IsStopped, the answer of a
+// CancelBlockRequest that was blocked, the handler's record.
+func (s *session) endTail() string {
+	c := ""
+	if s.cancelCh != nil {
+		select {
+		case r := <-s.cancelCh:
+			c = " cancel=" + b2s(r)
+		case <-time.After(time.Second):
+			c = " cancel=hung"
+		}
+		s.cancelCh = nil
+	}
+	// the handler thread ends with the connection: give it a moment to record its return
+	for i := 0; i < 50; i++ {
+		if st := s.blk.show(); !strings.HasSuffix(st, "drun") {
+			break
+		}
+		time.Sleep(time.Millisecond)
+	}
+	s.endTold = true
+	return fmt.Sprintf(" onstop=%d stopped=%s%s bh=%s", atomic.LoadInt64(&s.onStops), b2s(s.node.IsStopped()), c, s.blk.show())
+}
+
+func b2s(v bool) string {
+	if v {
+		return "1"
+	}
+	return "0"
 }
 
 // reqTime brackets the instant at which the node stamped LastRequested for an op.
@@ -632,7 +704,10 @@ func (s *session) sendOp(a hx.Args, b []byte, own uint64, hasOwn bool) string {
 		run = " run=" + s.waitRun(runReturnMax)
 	}
 	fx, hh := s.log.take()
-	cnt, _ := s.node.GetAndResetTxReceivedCount()
+	var cnt uint64
+	if res == "closed" || !s.cancelPending() {
+		cnt, _ = s.node.GetAndResetTxReceivedCount()
+	}
 	body := fmt.Sprintf("tx=%s fx=[%s] hh=%s rx=%d st=%s", s.takeSent(nonce, true), strings.Join(fx, ","),
 		showHH(hh), cnt, flags(s.node))
 	switch res {
@@ -644,9 +719,46 @@ func (s *session) sendOp(a hx.Args, b []byte, own uint64, hasOwn bool) string {
 	case "closed":
 		// messages queued just before the connection went down may or may not have been written
 		i := strings.Index(body, " fx=")
-		return key + "=closed" + run + " tx=*" + body[i:]
+		tail := ""
+		if strings.HasSuffix(run, "returned") {
+			tail = s.endTail()
+		}
+		return key + "=closed" + run + " tx=*" + body[i:] + tail
 	}
 	return key + "=none " + body
+}
+
+// partOp writes bytes WITHOUT a barrier ping (a piece of a message) and waits until the node has
+// taken them all and is blocked reading again.
+func (s *session) partOp(a hx.Args, b []byte) string {
+	if s.dead {
+		return "dead"
+	}
+	s.queued += int64(len(b))
+	s.handled = time.Time{}
+	s.writeQ <- append([]byte{}, b...)
+	res := s.waitBarrier(waitOf(a, defaultWait), ^uint64(0))
+	if res == "none" && !s.handled.IsZero() {
+		res = "quiet"
+	}
+	run := ""
+	if res == "closed" {
+		s.dead = true
+		run = " run=" + s.waitRun(runReturnMax)
+	}
+	fx, hh := s.log.take()
+	var cnt uint64
+	if res == "closed" || !s.cancelPending() {
+		cnt, _ = s.node.GetAndResetTxReceivedCount()
+	}
+	if res == "closed" {
+		tail := ""
+		if strings.HasSuffix(run, "returned") {
+			tail = s.endTail()
+		}
+		return fmt.Sprintf("sync=closed%s tx=* fx=[%s] hh=%s rx=%d st=%s%s", run, strings.Join(fx, ","), showHH(hh), cnt, flags(s.node), tail)
+	}
+	return fmt.Sprintf("sync=%s tx=%s fx=[%s] hh=%s rx=%d st=%s", res, s.takeSent(0, false), strings.Join(fx, ","), showHH(hh), cnt, flags(s.node))
 }
 
 // settle waits until nothing new arrives for a few polls (raw streams may carry handshake messages).
@@ -867,6 +979,9 @@ func (w *worker) stepInner(line string) string {
 		if s.txm == nil {
 			return op + " => req=notx"
 		}
+		if s.cancelPending() {
+			return op + " => req=locked"
+		}
 		txids, _ := s.txm.GetTxRequests(hx.Ctx(), s.node.ID(), 100000)
 		if len(txids) > 0 {
 			s.mu.Lock()
@@ -901,6 +1016,9 @@ func (w *worker) stepInner(line string) string {
 				}
 			}
 		}
+		if a["nob"] == "1" {
+			return op + " => " + s.partOp(a, frame(cmd, p, a))
+		}
 		return op + " => " + s.sendOp(a, frame(cmd, p, a), 0, false)
 	case "ext":
 		p, ok := payloadOf(a)
@@ -908,11 +1026,17 @@ func (w *worker) stepInner(line string) string {
 		if !ok || !ok2 {
 			break
 		}
+		if a["nob"] == "1" {
+			return op + " => " + s.partOp(a, extFrame(cmd, p, a))
+		}
 		return op + " => " + s.sendOp(a, extFrame(cmd, p, a), 0, false)
 	case "raw":
 		b, ok := a.Hex("hex")
 		if !ok {
 			break
+		}
+		if a["nob"] == "1" {
+			return op + " => " + s.partOp(a, b)
 		}
 		return op + " => " + s.sendOp(a, b, 0, false)
 	case "pong":
@@ -937,20 +1061,38 @@ func (w *worker) stepInner(line string) string {
 		if s.dead {
 			return op + " => dead"
 		}
+		if s.cancelPending() {
+			return op + " => req=locked"
+		}
 		if !s.node.IsReady() {
 			return op + " => req=notready"
 		}
 		var hash bitcoin.Hash32
 		copy(hash[:], sha256d(h))
+		rec := &blockRec{}
 		err := s.node.RequestBlock(hx.Ctx(), hash, func(ctx context.Context, header *wire.BlockHeader,
 			txCount uint64, txChannel <-chan *wire.MsgTx) error {
+			rec.Lock()
+			rec.called, rec.count, rec.done = true, txCount, "run"
+			rec.Unlock()
 			for range txChannel {
+				rec.Lock()
+				rec.got++
+				rec.Unlock()
 			}
-			return nil
-		}, func(context.Context) {})
+			rec.Lock()
+			defer rec.Unlock()
+			if rec.got == rec.count {
+				rec.done = "ok"
+				return nil
+			}
+			rec.done = "err"
+			return fmt.Errorf("incomplete block")
+		}, func(context.Context) { atomic.AddInt64(&s.onStops, 1) })
 		if err != nil {
 			return op + " => req=busy"
 		}
+		s.blk = rec
 		s.mu.Lock()
 		before := s.taken
 		s.mu.Unlock()
@@ -964,6 +1106,67 @@ func (w *worker) stepInner(line string) string {
 		})
 		s.takeSent(0, false)
 		return op + " => req=ok"
+	case "reqheaders":
+		if s.dead {
+			return op + " => dead"
+		}
+		if s.cancelPending() {
+			return op + " => req=locked"
+		}
+		if err := s.node.RequestHeaders(hx.Ctx()); err != nil {
+			return op + " => req=busy"
+		}
+		s.mu.Lock()
+		before := s.taken
+		s.mu.Unlock()
+		s.waitFor(settleWait, func() bool {
+			for _, m := range s.recv[before:] {
+				if m.cmd == "getheaders" {
+					return true
+				}
+			}
+			return false
+		})
+		s.takeSent(0, false)
+		return op + " => req=ok"
+	case "cancelblock":
+		h, ok := a.Hex("hdr")
+		if !ok || len(h) != 80 {
+			break
+		}
+		if s.dead {
+			return op + " => dead"
+		}
+		if s.cancelPending() {
+			return op + " => started=locked"
+		}
+		var hash bitcoin.Hash32
+		copy(hash[:], sha256d(h))
+		ch := make(chan bool, 1)
+		go func() { ch <- s.node.CancelBlockRequest(hx.Ctx(), hash) }()
+		select {
+		case r := <-ch:
+			return op + " => started=" + b2s(r)
+		case <-time.After(waitOf(a, 300*time.Millisecond)):
+			s.cancelCh = ch
+			return op + " => started=hung"
+		}
+	case "blockstate":
+		// the handler thread runs beside the read loop: let its record settle
+		last := ""
+		for i := 0; i < 40; i++ {
+			cur := s.blk.show()
+			if cur == last {
+				break
+			}
+			last = cur
+			time.Sleep(2 * time.Millisecond)
+		}
+		busy := "?"
+		if s.dead || !s.cancelPending() {
+			busy = b2s(s.node.IsBusy())
+		}
+		return op + fmt.Sprintf(" => bh=%s onstop=%d busy=%s", s.blk.show(), atomic.LoadInt64(&s.onStops), busy)
 	case "close":
 		if s.hung {
 			return op + " => run=hung hh=[] st=" + flags(s.node)
@@ -981,7 +1184,15 @@ func (w *worker) stepInner(line string) string {
 		if wasDead {
 			hh = nil
 		}
-		return op + " => run=" + run + " hh=" + showHH(hh) + " st=" + flags(s.node)
+		tail := ""
+		if run == "returned" {
+			if wasDead && s.endTold {
+				tail = fmt.Sprintf(" onstop=%d stopped=%s bh=%s", atomic.LoadInt64(&s.onStops), b2s(s.node.IsStopped()), s.blk.show())
+			} else {
+				tail = s.endTail()
+			}
+		}
+		return op + " => run=" + run + " hh=" + showHH(hh) + " st=" + flags(s.node) + tail
 	}
 	return op + " => bad-op"
 }
